@@ -10,4 +10,14 @@ CHECKS = {
         "text": "Proved in Coq for ALL operand pairs and both internal representations: add/sub/mul/div/mod/unary minus of the model of int.cc return the exact integer (floor division, remainder with the divisor's sign) whenever it lies in [-2^63, 2^64-1] and an error otherwise (mod never errs except on 0), the six comparisons equal the order on Z, and results do not depend on the signed/unsigned representation of the operands. The model is tied to /repo by running int.cc (linked from the working tree) and the extracted model on a 570-operand boundary lattice exhaustively (all ordered pairs x 12 operations) plus random operands, and `A B op` queries with literals in every radix through the library.",
         "note": "Trusted: Coq kernel, extraction (ExtrOcamlBasic), the hand-written correspondence between IntModel.v and int.cc (checked by differential execution, not proved), literal parsing is covered by the word-level comparison only (stoull idealised).",
     },
+    "C16": {
+        "technique": "Coq proof (CovModel.v = coverage.cc: binary search, add = union, canonical form, comparison) + exhaustive differential correspondence coverage.cc vs extracted model",
+        "text": "Proved in Coq, for all vectors satisfying the representation invariant (ascending, disjoint, non-adjacent, non-empty runs below 2^64-1) and all arguments: coverage::find returns the split point; add and add_all are set union and keep the invariant; two invariant vectors denoting the same set are identical, hence comparison answers 'equal' exactly for equal sets however they were built. remove/intersect/is_covered/is_overlap and the word layer are modelled and tied to the code but their set-theoretic theorems are not yet proved (partial): for those the claim rests on the exhaustive correspondence (every add/remove sequence up to a depth over a small universe at four base offsets incl. straddling 2^32, 2^63 and the top of the address space, every query on every state, far-apart sparse universes, random long sequences, add_all/remove_all/overlap, and the Zwerg words through the library against interval-set semantics).",
+        "note": "Trusted: Coq kernel, extraction, hand-written correspondence between CovModel.v and coverage.cc (checked by differential execution). Arguments with start+length > 2^64-1 wrap in the code and are outside the claim.",
+    },
+    "C09": {
+        "technique": "Coq proof (Cmp.v = constant::operator<, value::cmp, comparison_result; theorem: the comparison words form a lawful total preorder) + all-pairs/all-triples correspondence on a value pool",
+        "text": "Proved in Coq for ALL constants, strings, sequences (any nesting) and address sets: exactly one of <, ==, > holds without error (also across types), == is an equivalence, < is transitive and antisymmetric, A<B iff B>A, equal values are interchangeable under < (strict weak order), the aliases are complements, arithmetic domains compare by value, constants with different domain keys are never equal, strings compare bytewise, sequences by length first. The domain-address order and the type codes are parameters of the model; the check observes them on the running implementation, then compares every ordered pair of a ~80-value pool (18 comparison forms each) with the extracted model and checks all triples for transitivity directly on the implementation's results.",
+        "note": "Trusted: Coq kernel, extraction, the hand-written correspondence between Cmp.v and the C++ (differential). Closures are excluded (as the property says). DWARF values (DIEs/attributes/units) are not in the pool; their comparison is exercised by C05's laws only.",
+    },
 }
